@@ -1,7 +1,13 @@
 import json
 import pure
+import prio
 
 CHECKS = {
+    "C01": prio.check_C01,
+    "C02": prio.check_C02,
+    "C05": prio.check_C05,
+    "C07": prio.check_C07,
+    "C15": prio.check_C15,
     "C13": pure.check_C13,
     "C14": pure.check_C14,
     "C18": pure.check_C18,
@@ -13,4 +19,6 @@ def replay(pid, path):
     with open(path) as f:
         r = json.load(f)
     print("replaying", r.get("what", "")[:300])
+    if r.get("replay", {}).get("kind") == "prio-v2-replay":
+        return prio.replay_file(pid, r)
     return CHECKS[pid]("quick")
